@@ -207,7 +207,7 @@ func (s *c27Scenario) header() string {
 func genC27(g *Gen, tier string, w *bufio.Writer) {
 	rounds := 8
 	if tier == "thorough" {
-		rounds = 60
+		rounds = 120
 	}
 	for r := 0; r < rounds; r++ {
 		// ---- install scenarios: every crash point × tear lengths
